@@ -1,4 +1,5 @@
 SPECIFICATION Spec
 CONSTANT TranslateVaddr = TRUE
+CONSTANT RemoteNameCap = FALSE
 INVARIANTS Total Emit
 CHECK_DEADLOCK FALSE
